@@ -4,6 +4,7 @@ import (
 	"crypto/sha256"
 	"fmt"
 	"sort"
+	"os"
 	"strings"
 	"sync"
 	"time"
@@ -479,6 +480,11 @@ func (p *Program) verifyFuncWith(fn *ssa.Function, fc *FuncContract, opts verify
 		}
 		for _, o := range byName[n] {
 			j := jobBy[o]
+			if d := os.Getenv("GOVC_DUMP_ALL"); d != "" && strings.Contains(n, d) {
+				// debugging aid: write every VC of the named obligation, discharged or not
+				raw := &Query{Name: n, Assumes: o.Assumes, Goal: o.Goal}
+				os.WriteFile(fmt.Sprintf("/tmp/vc-%s-path%d.smt2", d, o.PathID), []byte(raw.smtlib(false, "z3")), 0o644)
+			}
 			or.Time += j.res.Time
 			if or.Desc == "" {
 				or.Desc = o.Desc
